@@ -43,4 +43,41 @@ Proof.
     exact (sorted_disjoint ds 0 v Hs Hnd i j Hi Hj Hne).
   - exact Hkeys.
 Qed.
+
+(* the last hypothesis follows from a plainer one: two data of one variant can only share (offset, type) when both are
+   zero-size (data of non-zero size are disjoint, and one type has one size) - so it is enough that no two zero-size
+   data of one type sit at one offset *)
+Definition no_zst_twins (v : list nat) : Prop :=
+  forall i j, In i v -> In j v -> i <> j -> Gen.ty ds i = Gen.ty ds j -> d_size (getd ds i) = 0 ->
+              Gen.of ds i <> Gen.of ds j.
+
+Lemma NoDup_map_in {X Y} (f : X -> Y) : forall l, NoDup l ->
+  (forall x y, In x l -> In y l -> x <> y -> f x <> f y) -> NoDup (map f l).
+Proof.
+  induction l as [|x r IH]; intros Hnd Hinj; simpl; [constructor|]. inversion Hnd as [|? ? Hx Hr]; subst.
+  constructor.
+  - intro Hin. apply in_map_iff in Hin. destruct Hin as (y & E & Hy).
+    apply (Hinj y x); simpl; auto. intro; subst; auto.
+  - apply IH; auto. intros a c Ha Hc. apply Hinj; simpl; auto.
+Qed.
+
+Lemma keys_of_no_zst_twins : forall v, In v (b_vs b) -> no_zst_twins v ->
+  NoDup (map (fun i => (Gen.of ds i, Gen.ty ds i)) v).
+Proof.
+  intros v Hv Hz. pose proof (run_wf h HOK) as W.
+  destruct (wf_v _ W v Hv) as (Hs & Hnd & Hlt).
+  apply NoDup_map_in; [exact Hnd|]. intros i j Hi Hj Hne E.
+  injection E as Eo Et.
+  destruct (TI_ok v i Hv Hi) as [Ei _]. destruct (TI_ok v j Hv Hj) as [Ej _]. fold ds in Ei, Ej.
+  unfold Gen.ty in Et. rewrite Et in Ei.
+  assert (Esz : d_size (getd ds i) = d_size (getd ds j)) by congruence.
+  destruct (N.eq_dec (d_size (getd ds i)) 0) as [Z|NZ].
+  - exact (Hz i j Hi Hj Hne Et Z Eo).
+  - pose proof (sorted_disjoint ds 0 v Hs Hnd i j Hi Hj Hne) as D.
+    unfold dend, off, size, Gen.of in *. fold ds in D. lia.
+Qed.
+
+Theorem layout_ok_of_run_zst : forall v, In v (b_vs b) -> no_zst_twins v ->
+  layout_ok ds TI (max_type_align (ds, b_vs b)) cap v.
+Proof. intros v Hv Hz. apply layout_ok_of_run; auto. apply keys_of_no_zst_twins; auto. Qed.
 End Link.
